@@ -1,22 +1,22 @@
 (* Correspondence driver: reads one case per line  "<id> <sx>"  where
    sx ::= <non-negative int> | "(" sx* ")", runs the extracted Model.run, prints "<id> <sx>". *)
-open MODEL_MODULE
+module M = MODEL_MODULE
 
-let rec pos_of_int (i : int) : positive =
-  if i = 1 then XH
-  else if i land 1 = 0 then XO (pos_of_int (i lsr 1))
-  else XI (pos_of_int (i lsr 1))
-let n_of_int (i : int) : n = if i = 0 then N0 else Npos (pos_of_int i)
-let rec int_of_pos (p : positive) : int =
-  match p with XH -> 1 | XO q -> 2 * int_of_pos q | XI q -> 2 * int_of_pos q + 1
-let int_of_n (x : n) : int = match x with N0 -> 0 | Npos p -> int_of_pos p
+let rec pos_of_int (i : int) : M.positive =
+  if i = 1 then M.XH
+  else if i land 1 = 0 then M.XO (pos_of_int (i lsr 1))
+  else M.XI (pos_of_int (i lsr 1))
+let n_of_int (i : int) : M.n = if i = 0 then M.N0 else M.Npos (pos_of_int i)
+let rec int_of_pos (p : M.positive) : int =
+  match p with M.XH -> 1 | M.XO q -> 2 * int_of_pos q | M.XI q -> 2 * int_of_pos q + 1
+let int_of_n (x : M.n) : int = match x with M.N0 -> 0 | M.Npos p -> int_of_pos p
 
 (* parser over a string with an index *)
-let parse (s : string) (start : int) : sx =
+let parse (s : string) (start : int) : M.sx =
   let pos = ref start in
   let len = String.length s in
   let rec skip () = if !pos < len && s.[!pos] = ' ' then (incr pos; skip ()) in
-  let rec item () : sx =
+  let rec item () : M.sx =
     skip ();
     if !pos >= len then failwith "eof"
     else if s.[!pos] = '(' then begin
@@ -28,19 +28,19 @@ let parse (s : string) (start : int) : sx =
         else if s.[!pos] = ')' then incr pos
         else begin acc := item () :: !acc; go () end in
       go ();
-      L (List.rev !acc)
+      M.L (List.rev !acc)
     end else begin
       let st = !pos in
       while !pos < len && s.[!pos] >= '0' && s.[!pos] <= '9' do incr pos done;
       if !pos = st then failwith "bad token";
-      A (n_of_int (int_of_string (String.sub s st (!pos - st))))
+      M.A (n_of_int (int_of_string (String.sub s st (!pos - st))))
     end in
   item ()
 
-let rec print (b : Buffer.t) (x : sx) : unit =
+let rec print (b : Buffer.t) (x : M.sx) : unit =
   match x with
-  | A k -> Buffer.add_string b (string_of_int (int_of_n k))
-  | L l ->
+  | M.A k -> Buffer.add_string b (string_of_int (int_of_n k))
+  | M.L l ->
     Buffer.add_char b '(';
     List.iteri (fun i y -> if i > 0 then Buffer.add_char b ' '; print b y) l;
     Buffer.add_char b ')'
@@ -55,7 +55,7 @@ let () =
       Buffer.clear b;
       Buffer.add_string b id;
       Buffer.add_char b ' ';
-      (try print b (RUN_FUNCTION (parse line (sp + 1)))
+      (try print b (M.RUN_FUNCTION (parse line (sp + 1)))
        with Failure m -> Buffer.add_string b ("!" ^ m)
           | Stack_overflow -> Buffer.add_string b "!stack");
       Buffer.add_char b '\n';
